@@ -186,9 +186,12 @@ Proof.
   - apply remove_inv, H.
   - destruct H as (Hs & Hc & Hk & Hl). unfold Inv, set_content_length. cbn [stored chunked connection_close content_length].
     rewrite spec_stored_snoc, spec_cl_snoc. cbn [store_step spec_cl_rev]. repeat split; assumption.
-  - destruct H as (Hs & Hc & Hk & Hl). unfold Inv, set_transfer_encoding_chunked. cbn [stored chunked connection_close content_length].
-    rewrite spec_stored_snoc, spec_cl_snoc. cbn [store_step spec_cl_rev]. unfold eval_chunked, eval_close in *.
-    rewrite !eval_app, <- Hs, <- Hk. repeat split; try assumption.
+  - destruct H as (Hs & Hc & Hk & Hl). unfold Inv, set_transfer_encoding_chunked.
+    rewrite spec_stored_snoc, spec_cl_snoc. cbn [store_step spec_cl_rev]. rewrite <- Hs, <- Hc.
+    destruct (chunked h) eqn:Hch.
+    { repeat split; try assumption. rewrite Hch. exact Hc. }
+    cbn [stored chunked connection_close content_length]. unfold eval_chunked, eval_close in *.
+    rewrite !eval_app, <- Hk. repeat split; try assumption.
     + replace (field_has_token (bs "transfer-encoding") (bs "chunked") (TRANSFER_ENCODING, bs "chunked")) with true by (vm_compute; reflexivity).
       rewrite orb_true_r. reflexivity.
     + replace (field_has_token (bs "connection") (bs "close") (TRANSFER_ENCODING, bs "chunked")) with false by (vm_compute; reflexivity).
